@@ -214,11 +214,39 @@ def rows(src, strip_comments):
     return out
 
 
+def quirks(src, strip_comments, fn_body):
+    """(perDb, rewatchKeeps) as the source has them, or a string saying what was not recognised.
+      perDb         `watched_keys: HashMap<(usize, Vec<u8>), u64>` and neither Server::handle_exec passes the connection's
+                    `db_index` to `was_modified_since` nor handle_unwatch passes `conn.db_index` to `unregister_watch`
+                    (code as it is: `HashMap<Vec<u8>, u64>`, both use the connection's current database)
+      rewatchKeeps  handle_watch skips a key that is already in `watched_keys` (`.contains_key(`) before `register_watch`"""
+    t = strip_comments(src("storage/commands/transactions.rs"))
+    sv = strip_comments(src("network/server.rs"))
+    m = re.search(r"watched_keys\s*:\s*HashMap<\s*(\(\s*usize\s*,\s*Vec<u8>\s*\)|Vec<u8>)\s*,\s*u64\s*>", t)
+    hw, hu, he = fn_body(t, "handle_watch"), fn_body(t, "handle_unwatch"), fn_body(sv, "handle_exec")
+    if not m or hw is None or hu is None or he is None:
+        return "watched_keys field / handle_watch / handle_unwatch / Server::handle_exec not found"
+    if "register_watch" not in hw or "unregister_watch" not in hu or "was_modified_since" not in he:
+        return "register_watch / unregister_watch / was_modified_since calls not found in the WATCH handlers"
+    keyed = m.group(1).startswith("(")
+    exec_cur = bool(re.search(r"was_modified_since\s*\(\s*db_index\b", he))
+    unw_cur = bool(re.search(r"unregister_watch\s*\(\s*conn\s*\.\s*db_index\b", hu))
+    if keyed and not exec_cur and not unw_cur:
+        per_db = True
+    elif not keyed and exec_cur and unw_cur:
+        per_db = False
+    else:
+        return "watch list keyed by (db,key): %s, EXEC checks current db: %s, UNWATCH unregisters in current db: %s - not uniform" % (keyed, exec_cur, unw_cur)
+    i = hw.find("register_watch")
+    rewatch = bool(re.search(r"watched_keys\s*\.\s*contains_key\s*\(", hw[:i]))
+    return per_db, rewatch
+
+
 def lean_str_list(xs):
     return "[" + ", ".join('"%s"' % x for x in xs) + "]"
 
 
-def generate(src, strip_comments, header):
+def generate(src, strip_comments, fn_body, header):
     t = rows(src, strip_comments)
     lines = [header, "import FerrousSpec.Model.Watch", "namespace Ferrous.Gen", ""]
     lines.append("/-- One row per `pub fn` of `impl StorageEngine` (src/storage/engine.rs) and the sweeper loop:")
@@ -234,5 +262,14 @@ def generate(src, strip_comments, header):
                                                    lean_str_list(r["marked"]), "true" if r["marksAll"] else "false"))
         lines.append(",\n".join(body))
         lines.append("]")
+    q = quirks(src, strip_comments, fn_body)
+    lines.append("")
+    lines.append("/-- How the watch list is kept (src/storage/commands/transactions.rs, Server::handle_exec):")
+    lines.append("    `perDb` = entries are keyed by (database, key) and checked / unregistered there;")
+    lines.append("    `rewatchKeeps` = WATCH of an already watched key keeps the first baseline. -/")
+    if isinstance(q, str):
+        lines.append('def watchQ : Ferrous.Watch.Q := extraction_failed "%s"' % q.replace('"', "'"))
+    else:
+        lines.append("def watchQ : Ferrous.Watch.Q := ⟨%s, %s⟩" % ("true" if q[0] else "false", "true" if q[1] else "false"))
     lines += ["", "end Ferrous.Gen", ""]
     return "\n".join(lines)
